@@ -222,6 +222,24 @@ theorem tap_history (T act : Rat) (rel : Bool) (f : Frame) (rest : Hist) :
   obtain ⟨ih1, _, ih3⟩ := tap_state T act rel rest
   rw [run_cons, tap_fires_iff, ih1, ih3]
 
+/-- Tap over a history: Fired exactly on a release frame whose preceding continuous actuation lasted at most the release
+    time; once the actuation has lasted the release time nothing triggers until released; Ongoing while actuated before -/
+theorem tap_spec (T act : Rat) (rel : Bool) (f : Frame) (rest : Hist) :
+    (run (tapStep T act) (tapInit rel) (f :: rest)).2 =
+      (if actuatedNow act rest && !f.1.isActuated act && leQ (held act rel rest) T then .fired
+       else if leQ T (held act rel (f :: rest)) then .none
+       else if f.1.isActuated act then .ongoing else .none) := by
+  obtain ⟨v, t⟩ := f
+  have hs := tap_state T act rel rest
+  rw [run_cons]
+  generalize (run (tapStep T act) (tapInit rel) rest).1 = s at *
+  obtain ⟨ih1, ih2, ih3⟩ := hs
+  unfold tapStep
+  simp only [held, ih1, ih3]
+  by_cases hv : v.isActuated act = true
+  · simp [hv, timer_update, ih1, ih2]
+  · simp [hv, CTimer.reset]
+
 /-! ### Pulse -/
 
 def pulseInit (rel : Bool) : PulseSt := { timer := { relative := rel } }
@@ -272,6 +290,48 @@ theorem pulse_count_bounded (I : Rat) (limit : Nat) (onStart : Bool) (act : Rat)
       cases onStart <;> simp only [Bool.false_eq_true, if_false, if_true] <;> split <;>
         first | (show s.count + 1 ≤ limit; omega) | (show s.count ≤ limit; omega)
     · simp only [hc, Bool.false_eq_true, if_false]; exact hs
+
+theorem pulseStep_timer (I : Rat) (limit : Nat) (onStart : Bool) (act : Rat) (s : PulseSt) (t : Tick) (v : Value) :
+    (pulseStep I limit onStart act s t v).1.timer = (if v.isActuated act then s.timer.update t else s.timer.reset) := by
+  unfold pulseStep
+  by_cases hv : v.isActuated act = true
+  · simp only [hv, if_true]
+    split
+    · split <;> (split <;> rfl)
+    · rfl
+  · simp [hv]
+
+/-- Pulse over a history of any length: the timer measures the continuous actuation, the trigger count stays within the
+    limit, and a release resets the count — so with `pulse_fire_condition` it fires at most once per elapsed interval,
+    only while actuated, and at most `limit` times per actuation -/
+theorem pulse_state (I : Rat) (limit : Nat) (onStart : Bool) (act : Rat) (rel : Bool) (h : Hist) :
+    let r := run (pulseStep I limit onStart act) (pulseInit rel) h
+    r.1.timer.duration = held act rel h ∧ r.1.timer.relative = rel
+    ∧ (limit ≠ 0 → r.1.count ≤ limit)
+    ∧ (actuatedNow act h = false → r.1.count = 0 ∧ (h ≠ [] → r.2 = .none)) := by
+  induction h with
+  | nil => simp [run, pulseInit, held, actuatedNow]
+  | cons f rest ih =>
+    obtain ⟨v, t⟩ := f
+    obtain ⟨ih1, ih2, ih3, _⟩ := ih
+    simp only [run_cons]
+    generalize (run (pulseStep I limit onStart act) (pulseInit rel) rest).1 = s at *
+    have htm := pulseStep_timer I limit onStart act s t v
+    refine ⟨?_, ?_, ?_, ?_⟩
+    · rw [htm]; simp only [held]
+      by_cases hv : v.isActuated act = true
+      · simp [hv, timer_update, ih1, ih2]
+      · simp [hv, CTimer.reset]
+    · rw [htm]
+      by_cases hv : v.isActuated act = true
+      · simp [hv, timer_update, ih2]
+      · simp [hv, CTimer.reset, ih2]
+    · intro hl
+      exact pulse_count_bounded I limit onStart act s t v hl (ih3 hl)
+    · intro ha
+      simp only [actuatedNow] at ha
+      have := pulse_released I limit onStart act s t v ha
+      exact ⟨this.2, fun _ => this.1⟩
 
 /-! ### none of them leaves None without the input having been actuated -/
 
